@@ -194,9 +194,16 @@ class Ctx:
         self.functions.add(fn)
 
     def floor(self, name, count, floor):
+        # recorded now, decided by check_floors() once every rule of the run has had its say: a construct whose removal
+        # lowers a count is usually reported as a violation by a later rule, and that report must win
         self.floors.append((name, count, floor))
-        if count < floor and not self.violations:
-            raise AnalysisError("floor not met for %s: found %d instance(s), confirmed by hand: %d — the rule would pass vacuously" % (name, count, floor))
+
+    def check_floors(self):
+        if self.violations:
+            return
+        for (name, count, floor) in self.floors:
+            if count < floor:
+                raise AnalysisError("floor not met for %s: found %d instance(s), confirmed by hand: %d — the rule would pass vacuously" % (name, count, floor))
 
     def new_config(self, name):
         self.configs.append(name)
